@@ -305,7 +305,7 @@ def replay_ome(point, sector, morder, nf, backward):
     singlet = sector == "singlet"
     d = 3 if singlet else 2
     rng = np.random.default_rng(7)
-    A = rng.normal(size=(3, d, d)) * np.array([3.0, 10.0, 30.0])[:, None, None]
+    A = rng.normal(size=(3, d, d)) * np.array([1.0, 3.0, 9.0])[:, None, None]
     bm = {None: None, "exact": qk.MatchingMethods.BACKWARD_EXACT, "expanded": qk.MatchingMethods.BACKWARD_EXPANDED}[backward]
     shift = _coupling(nf + 1, morder + 1)
 
@@ -316,25 +316,32 @@ def replay_ome(point, sector, morder, nf, backward):
         def integrand(self, areas):
             return 1.0
 
-    m0, m1 = ((100, 21) if singlet else (200, 200))
     worst = None
+    pts = [4e-4 * 1.6**k for k in range(9)]
     with mock.patch.object(qk, "QuadKerBase", KB), mock.patch.object(qk.ome_us, "A_singlet", lambda *a, **k: A.copy()), \
             mock.patch.object(qk.ome_us, "A_non_singlet", lambda *a, **k: A.copy()):
         for mm0 in ((21, 100, 90) if singlet else (200, 91)):
             for mm1 in ((21, 100, 90) if singlet else (200, 91)):
                 diffs = []
-                for a in (2e-3, 1e-3, 5e-4):
+                for a in pts:
                     ap = shift(a, L)
                     kv = qk.quad_ker_ome(0.5, (morder, 0), mm0, mm1, True, -1.0, None, ap, nf, 0.0, svmod.Modes.exponentiated, L, bm, False, False, False)
                     kc = qk.quad_ker_ome(0.5, (morder, 0), mm0, mm1, True, -1.0, None, a, nf, 0.0, svmod.Modes.unvaried, L, bm, False, False, False)
-                    diffs.append(abs(kv - kc))
-                if diffs[2] < 1e-15 or diffs[1] < 1e-15:
-                    continue
-                expo = math.log(diffs[1] / diffs[2]) / math.log(2.0)
-                if expo < morder + 0.5 and (worst is None or expo < worst[0]):
-                    worst = (expo, mm0, mm1, diffs)
+                    diffs.append(kv - kc)
+                # least-squares fit diff(a) = sum_{k=2..morder+4} c_k (a/a_max)^k: the coefficients up to a^morder must vanish
+                amax = pts[-1]
+                ks = list(range(1, morder + 5))
+                M = np.array([[(a / amax) ** k for k in ks] for a in pts])
+                c, *_ = np.linalg.lstsq(M, np.array(diffs), rcond=None)
+                for k, ck in zip(ks, c):
+                    if k > morder:
+                        break
+                    coeff = ck / amax**k
+                    natural = 8.0 * abs(L) * np.abs(A[: max(k - 1, 1)]).max()
+                    if abs(coeff) > 2e-2 * natural and (worst is None or abs(coeff) / natural > worst[0]):
+                        worst = (abs(coeff) / natural, mm0, mm1, k, coeff)
     if worst:
-        return {"detail": "quad_ker_ome (%s, matching order %d, nf %d, %s, L=%.3g) element (%d,%d): exponentiated - unvaried = %r at a = 2e-3, 1e-3, 5e-4: local exponent %.2f, must be >= %d" % (sector, morder, nf, backward or "forward", L, worst[1], worst[2], worst[3], worst[0], morder + 1)}
+        return {"detail": "quad_ker_ome (%s, matching order %d, nf %d, %s, L=%.3g) element (%d,%d): exponentiated - unvaried has an a_s^%d coefficient %.4g (fit over a in [4e-4, 1.7e-2]); all coefficients through a_s^%d must vanish" % (sector, morder, nf, backward or "forward", L, worst[1], worst[2], worst[3], worst[4], morder)}
     return None
 
 
